@@ -355,7 +355,7 @@ Proof.
   intros cn i b [a1 a2 a3 a4 a5 a6 a7 a8 a9 a10 a11 a12] e. unfold call_step.
   destruct (is_h2 e && c_closed cn); [reflexivity|].
   destruct e; cbn; try reflexivity;
-    repeat (unfold terminated, set_task, set_wrapper, set_queue, set_headers, set_trailers, set_wu, strip;
+    repeat (unfold terminated, set_task, set_wrapper, set_tr, set_queue, set_headers, set_trailers, set_wu, strip;
             cbn;
             match goal with
             | |- context [match c_side cn with _ => _ end] => destruct (c_side cn)
@@ -363,7 +363,7 @@ Proof.
             | |- context [if ?x then _ else _] => is_var x; destruct x
             | |- context [match ?x with _ => _ end] => is_var x; destruct x
             end);
-    unfold terminated, set_task, set_wrapper, set_queue, set_headers, set_trailers, set_wu, strip;
+    unfold terminated, set_task, set_wrapper, set_tr, set_queue, set_headers, set_trailers, set_wu, strip;
     cbn; reflexivity.
 Qed.
 
@@ -624,49 +624,16 @@ Proof.
   - destruct (s_raise (step_r s a)); [reflexivity | apply IH, H].
 Qed.
 
-Lemma raises_exactly : forall s e,
-  raises s e = true <->
-  c_closed (st_conn s) = false /\
-  exists i rm code c, e = EReset i rm code /\ c_side (st_conn s) = Server /\
-                      project i s = Some c /\ cs_in_tasks c = false.
+(* no branch of process() lets an exception out any more (D11, D21 and the KeyError of Handler.cancel on
+   a second StreamReset are all repaired) *)
+Lemma never_raises : forall s e, raises s e = false.
 Proof.
-  intros s e. unfold raises, step_r, project. split.
-  - destruct (addr e) as [i|] eqn:Ha; cbn [s_raise]; [|discriminate].
-    unfold call_step.
-    destruct (c_closed (st_conn s)) eqn:Hc.
-    + destruct (is_h2 e) eqn:Hh; cbn [andb].
-      * discriminate.
-      * destruct e; try discriminate Hh; cbn;
-          repeat match goal with
-                 | |- context [match ?x with _ => _ end] => destruct x; cbn
-                 end; discriminate.
-    + rewrite andb_false_r.
-      destruct e; cbn in Ha; try discriminate Ha; cbn.
-      * destruct (c_side (st_conn s)); cbn; discriminate.
-      * destruct (lookup i (st_reg s)); cbn; discriminate.
-      * destruct (lookup i (st_reg s)); cbn; discriminate.
-      * destruct (lookup i (st_reg s)); cbn; discriminate.
-      * destruct (lookup i (st_reg s)); cbn; discriminate.
-      * injection Ha as <-.
-        destruct (lookup i0 (st_reg s)) as [c|] eqn:Hl; cbn; [|discriminate].
-        destruct (c_side (st_conn s)) eqn:Hs; cbn; [discriminate|].
-        destruct (cs_in_tasks (terminated _ _ c)) eqn:Ht; cbn; [discriminate|].
-        intros _. split; [reflexivity|]. exists i0, remote, code, c.
-        split; [reflexivity|]. split; [reflexivity|]. split; [exact Hl|].
-        rewrite in_tasks_terminated in Ht. exact Ht.
-      * destruct (i0 =? 0); [discriminate|]. destruct (lookup i (st_reg s)); cbn; discriminate.
-      * discriminate.
-      * destruct (lookup i (st_reg s)); cbn; discriminate.
-      * destruct (lookup i (st_reg s)); cbn; discriminate.
-      * destruct (lookup i (st_reg s)); cbn; discriminate.
-      * discriminate.
-      * destruct (lookup i (st_reg s)) as [c|]; cbn; [|discriminate].
-        destruct (cs_queue c) as [|[d a|] q]; cbn; discriminate.
-  - intros [Hc (i & rm & code & c & -> & Hs & Hp & Ht)]; cbn [addr s_raise].
-    unfold call_step. rewrite Hc, andb_false_r, Hp, Hs.
-    assert (E : cs_in_tasks (terminated Server (if rm then RRemoteReset code else RProtocolError) c) = false).
-    { rewrite in_tasks_terminated. exact Ht. }
-    rewrite E. reflexivity.
+  intros s e. unfold raises, step_r. destruct (addr e) as [i|]; cbn [s_raise]; [|reflexivity].
+  unfold call_step. destruct (is_h2 e && c_closed (st_conn s)); [reflexivity|].
+  destruct e; cbn; try reflexivity;
+    repeat match goal with
+           | |- context [match ?x with _ => _ end] => destruct x; cbn
+           end; reflexivity.
 Qed.
 
 Fixpoint no_raise (es : list event) (s : state) : bool :=
@@ -681,7 +648,7 @@ Proof.
   unfold raises in H1. rewrite H1. apply IH. exact H2.
 Qed.
 
-(* ---- (10) isolation inside one read: refuted in general, true when nothing raises -------------------- *)
+(* ---- (10) isolation inside one read ------------------------------------------------------------------ *)
 Lemma bcast_side_closed : forall cn cn' e c,
   c_closed cn = c_closed cn' -> c_side cn = c_side cn' -> bcast cn e c = bcast cn' e c.
 Proof.
@@ -751,180 +718,30 @@ Proof.
   destruct (j =? i) eqn:E; [|reflexivity]. apply Z.eqb_eq in E. subst. exfalso. apply Ha. reflexivity.
 Qed.
 
-(* isolation inside one read (one data_received call): an event that is neither addressed to call i nor
-   fatal does not change what call i gets from that read -- whenever no input of the read raises out of
-   process().  By raises_exactly the only raising input left is a second StreamReset for a server stream
-   whose handler task was already popped, which h2 never delivers. *)
+Lemma no_raise_always : forall es s, no_raise es s = true.
+Proof.
+  induction es as [|e t IH]; intro s; cbn [no_raise]; [reflexivity|].
+  rewrite never_raises, IH. reflexivity.
+Qed.
+
+Lemma run_batch_is_run : forall es s acc,
+  fst (fst (run_batch es s acc)) = run es s /\ snd (run_batch es s acc) = false.
+Proof. intros. apply run_batch_no_raise, no_raise_always. Qed.
+
+(* isolation inside one read (one data_received call), full strength: an event that is neither addressed
+   to call i nor fatal does not change what call i gets from that read -- every read, both sides *)
 Lemma read_isolation : forall i es1 e es2 s acc,
-  no_raise (es1 ++ e :: es2) s = true -> no_raise (es1 ++ es2) s = true ->
   addr e <> Some i -> fatal e = false ->
   option_map strip (project i (fst (fst (run_batch (es1 ++ e :: es2) s acc)))) =
   option_map strip (project i (fst (fst (run_batch (es1 ++ es2) s acc)))).
 Proof.
-  intros i es1 e es2 s acc N1 N2 Ha Hf.
-  destruct (run_batch_no_raise _ s acc N1) as [-> _].
-  destruct (run_batch_no_raise _ s acc N2) as [-> _].
+  intros i es1 e es2 s acc Ha Hf.
+  destruct (run_batch_is_run (es1 ++ e :: es2) s acc) as [-> _].
+  destruct (run_batch_is_run (es1 ++ es2) s acc) as [-> _].
   apply run_isolation; assumption.
 Qed.
 
 Lemma run_keeps_side : forall es s, c_side (st_conn (run es s)) = c_side (st_conn s).
 Proof.
   induction es as [|e t IH]; intro s; cbn [run]; [reflexivity|]. rewrite IH. apply any_event_keeps_side.
-Qed.
-
-(* a client connection never lets anything out of process(), whatever the peer sends (D21 repaired) *)
-Lemma client_never_raises : forall es s, c_side (st_conn s) = Client -> no_raise es s = true.
-Proof.
-  induction es as [|e t IH]; intros s Hs; cbn [no_raise]; [reflexivity|].
-  apply andb_true_iff. split.
-  - apply negb_true_iff. destruct (raises s e) eqn:R; [|reflexivity]. exfalso.
-    apply raises_exactly in R. destruct R as [_ (j & rm & code & c & _ & Hsd & _)]. congruence.
-  - apply IH. rewrite any_event_keeps_side. exact Hs.
-Qed.
-
-Lemma read_isolation_client : forall i es1 e es2 s acc,
-  c_side (st_conn s) = Client -> addr e <> Some i -> fatal e = false ->
-  option_map strip (project i (fst (fst (run_batch (es1 ++ e :: es2) s acc)))) =
-  option_map strip (project i (fst (fst (run_batch (es1 ++ es2) s acc)))).
-Proof.
-  intros. apply read_isolation; try assumption; apply client_never_raises; assumption.
-Qed.
-
-(* a server connection: a static discipline on the input that excludes the KeyError -- no stream is reset
-   twice (and nothing registers streams behind the handler's back) *)
-Definition reset_ids (es : list event) : list sid :=
-  flat_map (fun e => match e with EReset i _ _ => [i] | _ => [] end) es.
-Definition is_register (e : event) : bool := match e with ARegister _ => true | _ => false end.
-Definition tasks_inv (R : list sid) (s : state) : Prop :=
-  forall i c, project i s = Some c -> cs_in_tasks c = false -> In i R.
-
-Lemma in_tasks_bcast : forall cn e c, cs_in_tasks (bcast cn e c) = cs_in_tasks c.
-Proof.
-  intros cn e c. unfold bcast. destruct (is_h2 e && c_closed cn); [reflexivity|].
-  destruct e; try reflexivity;
-    try (destruct initial_window; reflexivity);
-    rewrite in_tasks_terminated; destruct (c_side cn); try reflexivity;
-    destruct (cs_in_tasks c) eqn:E; cbn; try reflexivity; exact E.
-Qed.
-
-Lemma in_tasks_own_step : forall cn i oc e c,
-  c_side cn = Server -> is_register e = false ->
-  (forall j rm code, e <> EReset j rm code) ->
-  r_call (call_step cn i oc e) = Some c -> cs_in_tasks c = false ->
-  exists c0, oc = Some c0 /\ cs_in_tasks c0 = false.
-Proof.
-  intros cn i oc e c Hs Hr Hnr. unfold call_step.
-  destruct (is_h2 e && c_closed cn).
-  { cbn. intros -> Ht. eauto. }
-  destruct e; try discriminate Hr; cbn.
-  - rewrite Hs. cbn. intros H Ht. injection H as <-. discriminate Ht.
-  - destruct oc as [c0|]; cbn; [|discriminate]. intros H Ht. injection H as <-. eauto.
-  - destruct oc as [c0|]; cbn; [|discriminate]. intros H Ht. injection H as <-.
-    destruct (fcl =? 0); eauto.
-  - destruct oc as [c0|]; cbn; [|discriminate]. intros H Ht. injection H as <-. eauto.
-  - destruct oc as [c0|]; cbn; [|discriminate]. intros H Ht. injection H as <-. eauto.
-  - exfalso. eapply Hnr. reflexivity.
-  - destruct oc as [c0|]; cbn; [|discriminate]. intros H Ht. injection H as <-. eauto.
-  - intros -> Ht. eauto.
-  - intros -> Ht. eauto.
-  - intros -> Ht. eauto.
-  - intros -> Ht. eauto.
-  - intros -> Ht. eauto.
-  - intros -> Ht. eauto.
-  - intros -> Ht. eauto.
-  - intros -> Ht. eauto.
-  - intros -> Ht. eauto.
-  - intros -> Ht. eauto.
-  - intros -> Ht. eauto.
-  - intros -> Ht. eauto.
-  - destruct oc as [c0|]; cbn; discriminate.
-  - destruct oc as [c0|]; cbn; [|discriminate]. intros H Ht. injection H as <-. eauto.
-  - destruct oc as [c0|]; cbn; [|discriminate]. intros H Ht. injection H as <-.
-    rewrite in_tasks_terminated in Ht. eauto.
-  - intros -> Ht. eauto.
-  - destruct oc as [c0|]; cbn; [|discriminate].
-    destruct (cs_queue c0) as [|[d a|] q]; cbn; intros H Ht; injection H as <-; eauto.
-Qed.
-
-Definition rid (e : event) : list sid := match e with EReset i _ _ => [i] | _ => [] end.
-
-Lemma reset_ids_cons : forall e t, reset_ids (e :: t) = rid e ++ reset_ids t.
-Proof. reflexivity. Qed.
-
-Lemma tasks_inv_step : forall R s e,
-  c_side (st_conn s) = Server -> is_register e = false -> tasks_inv R s ->
-  tasks_inv (rid e ++ R) (step s e).
-Proof.
-  intros R s e Hs Hr Hinv i c Hp Ht. apply in_or_app.
-  destruct (addr e) as [j|] eqn:Ha.
-  - destruct (Z.eq_dec i j) as [->|Hij].
-    + rewrite (project_step_own s e j Ha) in Hp.
-      assert (D : (exists j' rm code, e = EReset j' rm code) \/ (forall j' rm code, e <> EReset j' rm code)).
-      { destruct e; try (right; intros; discriminate). left; eauto. }
-      destruct D as [(j' & rm & code & ->) | Hnr].
-      * left. cbn in Ha. injection Ha as ->. left. reflexivity.
-      * right. destruct (in_tasks_own_step _ _ _ _ _ Hs Hr Hnr Hp Ht) as (c0 & Hc0 & Ht0).
-        exact (Hinv j c0 Hc0 Ht0).
-    + right. rewrite (addressed_event_local s e j i Ha Hij) in Hp. exact (Hinv i c Hp Ht).
-  - right. rewrite (conn_event_project s e i Ha) in Hp.
-    destruct (project i s) as [c0|] eqn:Hc0; cbn [option_map] in Hp; [|discriminate].
-    injection Hp as <-. rewrite in_tasks_bcast in Ht. exact (Hinv i c0 Hc0 Ht).
-Qed.
-
-Lemma nodup_app_drop : forall {A} (a b c : list A), NoDup (a ++ b ++ c) -> NoDup (a ++ c).
-Proof.
-  intros A a b. induction b as [|x b IH]; intros c H; [exact H|].
-  apply IH. cbn [app] in H. exact (NoDup_remove_1 _ _ _ H).
-Qed.
-
-Lemma server_discipline_no_raise : forall es R s,
-  c_side (st_conn s) = Server -> tasks_inv R s ->
-  forallb (fun e => negb (is_register e)) es = true ->
-  NoDup (reset_ids es) -> (forall i, In i (reset_ids es) -> ~ In i R) ->
-  no_raise es s = true.
-Proof.
-  induction es as [|e t IH]; intros R s Hs Hinv Hreg Hnd Hdis; cbn [no_raise]; [reflexivity|].
-  cbn [forallb] in Hreg. apply andb_true_iff in Hreg as [Hr Hreg]. apply negb_true_iff in Hr.
-  rewrite reset_ids_cons in Hnd, Hdis.
-  apply andb_true_iff. split.
-  - apply negb_true_iff. destruct (raises s e) eqn:Rz; [|reflexivity]. exfalso.
-    apply raises_exactly in Rz. destruct Rz as [_ (j & rm & code & c & -> & _ & Hp & Ht)].
-    apply (Hdis j); [left; reflexivity | exact (Hinv j c Hp Ht)].
-  - apply (IH (rid e ++ R)).
-    + rewrite any_event_keeps_side. exact Hs.
-    + apply tasks_inv_step; assumption.
-    + exact Hreg.
-    + exact (nodup_app_drop [] (rid e) (reset_ids t) Hnd).
-    + intros i Hi Hin. apply in_app_or in Hin. destruct Hin as [Hin|Hin].
-      * destruct e; cbn [rid In] in Hin; try contradiction.
-        cbn [rid app] in Hnd. inversion Hnd as [|? ? Hn _]; subst.
-        destruct Hin as [<-|[]]. exact (Hn Hi).
-      * apply (Hdis i); [apply in_or_app; right; exact Hi | exact Hin].
-Qed.
-
-Lemma reset_ids_app : forall a b, reset_ids (a ++ b) = reset_ids a ++ reset_ids b.
-Proof. intros. unfold reset_ids. apply flat_map_app. Qed.
-
-(* the states a server connection starts reads from: every registered stream still has its handler task *)
-Definition all_in_tasks (s : state) : Prop := forall i c, project i s = Some c -> cs_in_tasks c = true.
-
-Lemma read_isolation_server : forall i es1 e es2 s acc,
-  c_side (st_conn s) = Server -> all_in_tasks s ->
-  forallb (fun x => negb (is_register x)) (es1 ++ e :: es2) = true ->
-  NoDup (reset_ids (es1 ++ e :: es2)) ->
-  addr e <> Some i -> fatal e = false ->
-  option_map strip (project i (fst (fst (run_batch (es1 ++ e :: es2) s acc)))) =
-  option_map strip (project i (fst (fst (run_batch (es1 ++ es2) s acc)))).
-Proof.
-  intros i es1 e es2 s acc Hs Hall Hreg Hnd Ha Hf.
-  assert (Hinv : tasks_inv [] s).
-  { intros j c Hp Ht. rewrite (Hall j c Hp) in Ht. discriminate. }
-  apply read_isolation; try assumption.
-  - apply (server_discipline_no_raise _ [] s); try assumption. intros j _ [].
-  - apply (server_discipline_no_raise _ [] s); try assumption.
-    + rewrite forallb_app in Hreg |- *. cbn [forallb] in Hreg.
-      apply andb_true_iff in Hreg as [H1 H2]. apply andb_true_iff in H2 as [_ H2].
-      rewrite H1, H2. reflexivity.
-    + rewrite reset_ids_app in Hnd |- *. rewrite reset_ids_cons in Hnd. exact (nodup_app_drop _ _ _ Hnd).
-    + intros j _ [].
 Qed.
